@@ -133,6 +133,30 @@ async fn expect_frame(inc: &mut Incoming, want: &str, skip_prefix: &str) -> Resu
     }
 }
 
+/// How a connection loss is produced.
+struct Cutter {
+    relay: Option<net::Relay>,
+}
+
+impl Cutter {
+    async fn outage(&self, fake: &FakeServer) {
+        match &self.relay {
+            None => {
+                fake.cut();
+                tokio::time::sleep(Duration::from_millis(100)).await;
+            }
+            Some(r) => {
+                // silence in both directions for longer than the idle time-out (1.5 s), then the path is back
+                r.set_blackhole(true);
+                tokio::time::sleep(Duration::from_millis(2600)).await;
+                r.set_blackhole(false);
+                // whatever the fake server still holds is dead too
+                fake.cut();
+            }
+        }
+    }
+}
+
 struct Params {
     kind: String,
     pre: usize,
@@ -142,20 +166,28 @@ struct Params {
     fatal: bool,
     backoff: String,
     max: u32,
+    /// "close": the fake server closes its connections; "timeout": a relay drops every packet until both sides time out
+    outage: String,
 }
 
 async fn cell(set: Arc<CertSet>, p: Params) -> Result<String, Fail> {
     let class = format!("{}", p.kind);
     let setup = |what: &str, e: String| fail("setup", what, format!("{what}: {e}"));
-    let mut fake = FakeServer::start(&set).map_err(|e| setup("fake server", e.to_string()))?;
-    let client = net::client(fake.addr, &set.ca, &set.client, backoff(&p.backoff, p.max)).await.map_err(|e| setup("client connect", e.to_string()))?;
+    let silent = p.outage == "timeout";
+    let mut fake = if silent { FakeServer::start_with_idle(&set, Some(Duration::from_millis(1500))) } else { FakeServer::start(&set) }.map_err(|e| setup("fake server", e.to_string()))?;
+    let relay = if silent { Some(net::Relay::start(fake.addr).await.map_err(|e| setup("relay", e.to_string()))?) } else { None };
+    let target = relay.as_ref().map(|r| r.addr).unwrap_or(fake.addr);
+    // with a silent outage the connection must be kept alive by pings more often than the idle time-out
+    let client = net::client_ka(target, &set.ca, &set.client, backoff(&p.backoff, p.max), if silent { 300 } else { 5_000 }).await.map_err(|e| setup("client connect", e.to_string()))?;
+    let cutter = Cutter { relay };
     let topic = "/c12ns/topic";
     let code = if p.fatal { INVALID_TOPIC_NAME } else { REPLIER_ALREADY_BOUND };
     let r = match p.kind.as_str() {
-        "publisher" => publisher(&mut fake, &client, topic, &p, code, &class).await,
-        "subscriber" => subscriber(&mut fake, &client, topic, &p, code, &class).await,
-        "requestor" => requestor(&mut fake, &client, topic, &p, code, &class).await,
-        _ => replier(&mut fake, &client, topic, &p, code, &class).await,
+        "publisher" => publisher(&mut fake, &cutter, &client, topic, &p, code, &class).await,
+        "subscriber" => subscriber(&mut fake, &cutter, &client, topic, &p, code, &class).await,
+        "requestor" => requestor(&mut fake, &cutter, &client, topic, &p, code, &class).await,
+        "requestor-clones" => requestor_clones(&mut fake, &cutter, &client, topic, &p, &class).await,
+        _ => replier(&mut fake, &cutter, &client, topic, &p, code, &class).await,
     };
     fake.shutdown();
     r
@@ -196,7 +228,7 @@ fn judge(served: &Served, p: &Params, j: usize, class: &str) -> Result<(), Fail>
     }
 }
 
-async fn publisher(fake: &mut FakeServer, client: &selium::Client, topic: &str, p: &Params, code: u32, class: &str) -> Result<String, Fail> {
+async fn publisher(fake: &mut FakeServer, cutter: &Cutter, client: &selium::Client, topic: &str, p: &Params, code: u32, class: &str) -> Result<String, Fail> {
     let b = client.publisher(topic).with_encoder(StringCodec);
     let task = tokio::spawn(async move { b.open().await });
     let (mut cur, orig, mut publ) = first_registration!(fake, task, class);
@@ -205,8 +237,7 @@ async fn publisher(fake: &mut FakeServer, client: &selium::Client, topic: &str, 
         expect_frame(&mut cur, &format!("pre{i}"), "").await.map_err(|e| fail("setup", "pre", e))?;
     }
     for j in 1..=p.outages {
-        fake.cut();
-        tokio::time::sleep(Duration::from_millis(100)).await;
+        cutter.outage(fake).await;
         let mut op = tokio::spawn(async move {
             let r = publ.send(format!("lost{j}")).await;
             (publ, r)
@@ -255,7 +286,7 @@ async fn publisher(fake: &mut FakeServer, client: &selium::Client, topic: &str, 
     Ok("recovered-every-outage".into())
 }
 
-async fn subscriber(fake: &mut FakeServer, client: &selium::Client, topic: &str, p: &Params, code: u32, class: &str) -> Result<String, Fail> {
+async fn subscriber(fake: &mut FakeServer, cutter: &Cutter, client: &selium::Client, topic: &str, p: &Params, code: u32, class: &str) -> Result<String, Fail> {
     let b = client.subscriber(topic).with_decoder(StringCodec);
     let task = tokio::spawn(async move { b.open().await });
     let (mut cur, orig, mut sub) = first_registration!(fake, task, class);
@@ -267,8 +298,7 @@ async fn subscriber(fake: &mut FakeServer, client: &selium::Client, topic: &str,
         }
     }
     for j in 1..=p.outages {
-        fake.cut();
-        tokio::time::sleep(Duration::from_millis(100)).await;
+        cutter.outage(fake).await;
         let mut op = tokio::spawn(async move {
             let r = sub.next().await;
             (sub, r)
@@ -314,7 +344,7 @@ async fn subscriber(fake: &mut FakeServer, client: &selium::Client, topic: &str,
     Ok("recovered-every-outage".into())
 }
 
-async fn requestor(fake: &mut FakeServer, client: &selium::Client, topic: &str, p: &Params, code: u32, class: &str) -> Result<String, Fail> {
+async fn requestor(fake: &mut FakeServer, cutter: &Cutter, client: &selium::Client, topic: &str, p: &Params, code: u32, class: &str) -> Result<String, Fail> {
     let b = client.requestor(topic).with_request_encoder(StringCodec).with_reply_decoder(StringCodec).with_request_timeout(Duration::from_millis(1500)).map_err(|e| fail("setup", "timeout", e.to_string()))?;
     let task = tokio::spawn(async move { b.open().await });
     let (mut cur, orig, mut req) = first_registration!(fake, task, class);
@@ -339,8 +369,7 @@ async fn requestor(fake: &mut FakeServer, client: &selium::Client, topic: &str, 
         }
     }
     for j in 1..=p.outages {
-        fake.cut();
-        tokio::time::sleep(Duration::from_millis(100)).await;
+        cutter.outage(fake).await;
         let mut op = tokio::spawn(async move {
             let r = req.request(format!("q{j}")).await;
             (req, r)
@@ -400,7 +429,83 @@ async fn requestor(fake: &mut FakeServer, client: &selium::Client, topic: &str, 
     Ok("recovered-every-outage".into())
 }
 
-async fn replier(fake: &mut FakeServer, client: &selium::Client, topic: &str, p: &Params, code: u32, class: &str) -> Result<String, Fail> {
+/// Two clones of one requestor lose the connection; each recovers on its own stream. A request of
+/// the clone that recovered first is still in flight while the other one recovers.
+async fn requestor_clones(fake: &mut FakeServer, cutter: &Cutter, client: &selium::Client, topic: &str, p: &Params, class: &str) -> Result<String, Fail> {
+    let b = client.requestor(topic).with_request_encoder(StringCodec).with_reply_decoder(StringCodec).with_request_timeout(Duration::from_millis(3000)).map_err(|e| fail("setup", "timeout", e.to_string()))?;
+    let task = tokio::spawn(async move { b.open().await });
+    let (mut cur, orig, mut a) = first_registration!(fake, task, class);
+    let mut b = a.clone();
+    async fn read_req(cur: &mut Incoming, want: &str) -> Result<Frame, String> {
+        expect_frame(cur, want, "").await
+    }
+    async fn reply(cur: &mut Incoming, req: &Frame, want: &str) -> Result<(), String> {
+        if let Frame::Message(pl) = req {
+            cur.stream.send(Frame::Message(MessagePayload { headers: pl.headers.clone(), message: bytes::Bytes::from(format!("re:{want}").into_bytes()) })).await.map_err(|e| e.to_string())?;
+        }
+        Ok(())
+    }
+    // one exchange before the outage
+    for i in 0..p.pre {
+        let mut op = tokio::spawn(async move {
+            let r = a.request(format!("pre{i}")).await;
+            (a, r)
+        });
+        let f = read_req(&mut cur, &format!("pre{i}")).await.map_err(|e| fail("setup", "pre", e))?;
+        reply(&mut cur, &f, &format!("pre{i}")).await.map_err(|e| fail("setup", "pre", e))?;
+        let (x, r) = tokio::time::timeout(OP_BOUND, &mut op).await.map_err(|_| fail("setup", "pre", "hung".into()))?.map_err(|e| fail("setup", "task", e.to_string()))?;
+        a = x;
+        if r.as_deref().ok() != Some(&format!("re:pre{i}")) {
+            return Err(fail("setup", "pre", format!("{r:?}")));
+        }
+    }
+    for j in 1..=p.outages {
+        cutter.outage(fake).await;
+        // clone b first: it recovers and its retried request is left unanswered for the moment
+        let mut op_b = tokio::spawn(async move {
+            let r = b.request(format!("b{j}")).await;
+            (b, r)
+        });
+        let (served, early) = serve(fake, &orig, &Outage { fails: 0, code: REPLIER_ALREADY_BOUND, backoff: p.backoff.clone() }, &mut op_b).await;
+        let mut cur_b = match served {
+            Served::Recovered(inc, 1) if early.is_none() => inc,
+            Served::Mismatch(m) => return Err(fail("re-registration-differs", class, m)),
+            _ => return Err(fail("not-working-after-recovery", class, format!("outage {j}: clone b did not re-register exactly once"))),
+        };
+        let fb = read_req(&mut cur_b, &format!("b{j}")).await.map_err(|e| fail("not-working-after-recovery", class, format!("outage {j}: clone b's retried request did not arrive: {e}")))?;
+        // now clone a notices the loss and recovers while b's request is in flight
+        let mut op_a = tokio::spawn(async move {
+            let r = a.request(format!("a{j}")).await;
+            (a, r)
+        });
+        let (served, early) = serve(fake, &orig, &Outage { fails: 0, code: REPLIER_ALREADY_BOUND, backoff: p.backoff.clone() }, &mut op_a).await;
+        let mut cur_a = match served {
+            Served::Recovered(inc, 1) if early.is_none() => inc,
+            Served::Mismatch(m) => return Err(fail("re-registration-differs", class, m)),
+            _ => return Err(fail("not-working-after-recovery", class, format!("outage {j}: clone a did not re-register exactly once"))),
+        };
+        let fa = read_req(&mut cur_a, &format!("a{j}")).await.map_err(|e| fail("not-working-after-recovery", class, format!("outage {j}: clone a's retried request did not arrive: {e}")))?;
+        // answer both
+        reply(&mut cur_b, &fb, &format!("b{j}")).await.map_err(|e| fail("setup", "reply", e))?;
+        reply(&mut cur_a, &fa, &format!("a{j}")).await.map_err(|e| fail("setup", "reply", e))?;
+        let (xb, rb) = tokio::time::timeout(OP_BOUND, &mut op_b).await.map_err(|_| fail("hang", class, format!("outage {j}: clone b's request hung")))?.map_err(|e| fail("setup", "task", e.to_string()))?;
+        let (xa, ra) = tokio::time::timeout(OP_BOUND, &mut op_a).await.map_err(|_| fail("hang", class, format!("outage {j}: clone a's request hung")))?.map_err(|e| fail("setup", "task", e.to_string()))?;
+        b = xb;
+        a = xa;
+        if rb.as_deref().ok() != Some(&format!("re:b{j}")) {
+            return Err(fail("not-working-after-recovery", class, format!("outage {j}: clone b recovered first, its request reached the server and was answered after clone a recovered, yet it returned {rb:?}")));
+        }
+        if ra.as_deref().ok() != Some(&format!("re:a{j}")) {
+            return Err(fail("not-working-after-recovery", class, format!("outage {j}: clone a's request was answered, yet it returned {ra:?}")));
+        }
+        let _ = cur;
+        cur = cur_a;
+        drop(cur_b);
+    }
+    Ok("recovered-every-outage".into())
+}
+
+async fn replier(fake: &mut FakeServer, cutter: &Cutter, client: &selium::Client, topic: &str, p: &Params, code: u32, class: &str) -> Result<String, Fail> {
     let b = client
         .replier(topic)
         .with_request_decoder(StringCodec)
@@ -420,7 +525,7 @@ async fn replier(fake: &mut FakeServer, client: &selium::Client, topic: &str, p:
         exchange(&mut cur, &format!("pre{i}")).await.map_err(|e| fail("setup", "pre", e))?;
     }
     for j in 1..=p.outages {
-        fake.cut();
+        cutter.outage(fake).await;
         let (served, early) = serve(fake, &orig, &Outage { fails: p.fails[j - 1], code, backoff: p.backoff.clone() }, &mut listen).await;
         judge(&served, p, j, class)?;
         match served {
@@ -485,10 +590,26 @@ fn cells(tier: &str) -> Vec<Value> {
                         id += 1;
                     }
                 }
+                // a silent outage (packets dropped until both sides time out) instead of a close
+                if pre == 0 {
+                    for fv in [vec![0u32], vec![0, 0]] {
+                        if thorough || fv.len() == 1 {
+                            v.push(json!({"cell": id, "kind": kind, "items_before": 1, "outages": fv.len(), "failing_attempts_per_outage": fv, "failure": "retryable", "backoff": "constant", "max_attempts": max, "outage": "timeout"}));
+                            id += 1;
+                        }
+                    }
+                }
                 // unrecoverable answer to the first re-registration attempt
                 v.push(json!({"cell": id, "kind": kind, "items_before": pre, "outages": 1, "failing_attempts_per_outage": [1], "failure": "unrecoverable", "backoff": "constant", "max_attempts": max}));
                 id += 1;
             }
+        }
+    }
+    // two clones of one requestor recovering one after the other, a request of the first in flight
+    for &max in maxes {
+        for outages in 1..=2usize {
+            v.push(json!({"cell": id, "kind": "requestor-clones", "items_before": 1, "outages": outages, "failing_attempts_per_outage": vec![0; outages], "failure": "retryable", "backoff": "constant", "max_attempts": max.max(1)}));
+            id += 1;
         }
     }
     v
@@ -509,6 +630,7 @@ pub async fn run(tier: &str, replaying: bool) -> ! {
                 fatal: c["failure"].as_str() == Some("unrecoverable"),
                 backoff: c["backoff"].as_str().unwrap().to_string(),
                 max: c["max_attempts"].as_u64().unwrap() as u32,
+                outage: c["outage"].as_str().unwrap_or("close").to_string(),
             };
             let nontrivial = p.outages >= 2 || p.fails.iter().any(|f| *f >= 1);
             (nontrivial, cell(set, p).await)
@@ -521,7 +643,7 @@ pub async fn run(tier: &str, replaying: bool) -> ! {
     finish(
         rep,
         outs,
-        "every cell of: stream kind {publisher, subscriber, requestor, replier} x items exchanged before the first cut {0,1(,2)} x number of successive outages 1..=max+2 x failing re-registration attempts per outage 0..=max x backoff {constant, linear, exponential(2)} (all three in thorough, rotating in quick) with step 5 ms x max attempts {1,2(,3)}, plus one unrecoverable-answer cell per (kind, max, items). Oracle per outage: the re-registration frame equals the original; the fake server counts exactly fails+1 attempts (max when all fail, 1 when unrecoverable) regardless of earlier outages; with fails<max the stream works again (published item reaches the fake server / pushed item is yielded / retried and fresh requests are answered / a request sent to the replier is replied to); with fails==max too-many-retries is reported on the operation that hit the outage or on the next one; an unrecoverable answer is reported immediately. non-trivial = at least two outages or at least one failing attempt",
+        "every cell of: stream kind {publisher, subscriber, requestor, replier} x items exchanged before the first cut {0,1(,2)} x number of successive outages 1..=max+2 x failing re-registration attempts per outage 0..=max x backoff {constant, linear, exponential(2)} (all three in thorough, rotating in quick) with step 5 ms x max attempts {1,2(,3)}, plus one unrecoverable-answer cell per (kind, max, items), plus silent outages (a UDP relay drops every packet for 2.6 s against a 1.5 s idle time-out, so the connection ends by time-out instead of by a close frame) per (kind, max), plus two clones of one requestor recovering one after the other with a request of the first in flight. Oracle per outage: the re-registration frame equals the original; the fake server counts exactly fails+1 attempts (max when all fail, 1 when unrecoverable) regardless of earlier outages; with fails<max the stream works again (published item reaches the fake server / pushed item is yielded / retried and fresh requests are answered / a request sent to the replier is replied to); with fails==max too-many-retries is reported on the operation that hit the outage or on the next one; an unrecoverable answer is reported immediately. non-trivial = at least two outages or at least one failing attempt",
         "fault sequences are enumerated exhaustively; scheduling inside tokio/quinn is not controlled",
         json!({"step_ms": STEP_MS}),
         replaying,
